@@ -445,6 +445,10 @@ pub mod unit_trackers {
         assert(mct_sm2(t).len() == nc);
     }
 
+    /// the R-hat the multi-chain tracker reports for parameter p
+    pub open spec fn mct_rhat_at(t: MultiChainTracker, p: int) -> Fl {
+        f_sqrt(fl_div(fl(m_var_plus(a2(t.mean), mct_sm2(t), t.n as real, p)), fl(m_within(mct_sm2(t), p))))
+    }
     impl MultiChainTracker {
         pub fn step<T: ToPrimitive>(&mut self, x: &[T]) -> (r: Result<(), BoxDynError>)
             requires old(self).n < usize::MAX, convertible(x@), mct_shape(*old(self)), old(self).n_chains >= 1, old(self).n_params >= 1,
@@ -568,6 +572,23 @@ pub mod unit_trackers {
         //@body id=mct_rhat file=src/stats.rs impl_self=MultiChainTracker name=rhat props=C13
         //@sig fn rhat (& self) -> Result < Array1 < f32 > , Box < dyn Error > >
         //@rules R-f64 R-dynerr
+        //@end
+
+        pub fn max_rhat(&self) -> (r: Result<Fl, BoxDynError>)
+            requires mct_shape(*self), self.n_chains >= 2, self.n_params >= 1, self.n >= 2, fin2(a2(self.mean)), fin2(a2(self.mean_sq))
+            ensures r is Ok ==> (exists |p: int| 0 <= p < self.n_params && r->Ok_0 == #[trigger] mct_rhat_at(*self, p))
+                && forall |p: int| 0 <= p < self.n_params ==> xr_le(val(#[trigger] mct_rhat_at(*self, p)), val(r->Ok_0)),      // [C13.multi_tracker_max_rhat_is_the_largest_rhat]
+        //@body id=mct_max_rhat file=src/stats.rs impl_self=MultiChainTracker name=max_rhat props=C13
+        //@sig fn max_rhat (& self) -> Result < f32 , Box < dyn Error > >
+        //@rules R-f64 R-dynerr
+        //@anchor a0 scope=fn pos=after match="^let all :"
+        //@| proof { assert forall |p: int| 0 <= p < self.n_params implies (#[trigger] a1(all)[p]) == mct_rhat_at(*self, p) by {} }
+        //@anchor a1 scope=fn pos=after match="^let max ="
+        //@| proof {
+        //@|     let k = choose |k: int| 0 <= k < a1(all).len() && a1(all)[k] == max;
+        //@|     assert(max == mct_rhat_at(*self, k));
+        //@|     assert forall |p: int| 0 <= p < self.n_params implies xr_le(val(#[trigger] mct_rhat_at(*self, p)), val(max)) by { assert(a1(all)[p] == mct_rhat_at(*self, p)); }
+        //@| }
         //@end
 
         fn within_and_var(&self) -> (r: Result<(Array1<Fl>, Array1<Fl>), BoxDynError>)
